@@ -205,6 +205,14 @@ def pilotStateCb (N : Nat) : Tasks → List (Nat × St) → Except Err (Tasks ×
         | .ok (ts'', pubs') => .ok (ts'', pubs ++ pubs')
     else pilotStateCb N ts ps
 
+/-- the application submits tasks re-using ONE description object: before each submission it sets the uid and the pilot
+    (`pilot.submit_tasks(td)` stamps `td.pilot`); `subs` lists (uid, pilot) in submission order.  With `snapshot` (read from
+    task.py by the translator: the Task records the pilot when it is created) every task is bound to the pilot it was
+    submitted to; were `Task.pilot` a live view of the description, every task would show the pilot of the LAST submission -/
+def submitShared (snapshot : Bool) (subs : List (Nat × Nat)) : Tasks :=
+  subs.map (fun s => { uid := s.1, state := .nf 0, detail := none,
+                       pilot := some (if snapshot then s.2 else (subs.getLast?.map (·.2)).getD s.2) })
+
 /-! ### client-side pilot facade (C14) -/
 
 /-- `Pilot._update`: only forward gaps > 1 raise; the callbacks registered on the
